@@ -52,11 +52,12 @@ VARIABLES
     pool,      \* "present" | "taken"
     tasks,     \* Seq of [kind, a, st]; index = task id
     pc, loc,   \* per thread: park point and locals
+    sig,       \* harness-level signals raised by "signal" ops (lets a program order two clients)
     m,         \* the metrics counters
     h,         \* history, read by properties only
     lbl        \* label of the last step
 
-vars == <<prog, chan, lk, state, reducers, mws, subs, pool, tasks, pc, loc, m, h, lbl>>
+vars == <<prog, chan, lk, state, reducers, mws, subs, pool, tasks, pc, loc, sig, m, h, lbl>>
 
 EXIT == 0
 NONE == -1
@@ -130,6 +131,7 @@ Init ==
     /\ tasks = <<>>
     /\ pc = Pc0
     /\ loc = [t \in Threads |-> Loc0]
+    /\ sig = {}
     /\ m = M0
     /\ h = H0
     /\ lbl = Lbl0
@@ -147,6 +149,7 @@ ResetTo(p) ==
     /\ tasks' = <<>>
     /\ pc' = Pc0
     /\ loc' = [t \in Threads |-> Loc0]
+    /\ sig' = {}
     /\ m' = M0
     /\ h' = H0
     /\ lbl' = Lbl0
@@ -157,7 +160,7 @@ ResetTo(p) ==
 World(t, ans) ==
     [t |-> t, ans |-> ans, park |-> FALSE, ev |-> "-", d |-> 0, notes |-> <<>>,
      chan |-> chan, lk |-> lk, state |-> state, reducers |-> reducers, mws |-> mws, subs |-> subs,
-     pool |-> pool, tasks |-> tasks, pc |-> pc, loc |-> loc, m |-> m, h |-> h]
+     pool |-> pool, tasks |-> tasks, pc |-> pc, loc |-> loc, sig |-> sig, m |-> m, h |-> h]
 
 P(w) == w.pc[w.t]
 L(w) == w.loc[w.t]
@@ -204,10 +207,18 @@ SentPark(w, ok) ==
     Park([w EXCEPT !.loc[w.t].sok = ok], "sent", "send.end",
          [ch |-> L(w).ch, ok |-> IF ok THEN 1 ELSE 0])
 
+(* the consumer's end of the channel is gone: since the fix of F3 a send then fails at once        *)
+(* (only DropOldest senders keep the channel connected, channel.rs pair_with)                     *)
+RxGone(c, ch) ==
+    /\ "F3" \notin Defects
+    /\ ChanPol(ch) # "oldest"
+    /\ IF ch = "D" THEN FALSE ELSE IF SubKind[ch] = "iter" THEN ~c[ch].rx ELSE FALSE
+
 MSend(w0) ==                 \* pc "send": leaving send.begin
     LET ch == L(w0).ch  x == SendItem(w0)  q == w0.chan[ch].q  room == Len(q) < ChanCap(ch)
         w == IF ch = "D" /\ x > 0 THEN [w0 EXCEPT !.h.sent = Append(@, x)] ELSE w0 IN
-    CASE ChanPol(ch) = "block" ->          \* channel.rs:56-61 sender.send(item) (guarded by CanLeave)
+    CASE RxGone(w.chan, ch) -> SentPark(w, FALSE)     \* SendError / TrySendError::Disconnected
+      [] ChanPol(ch) = "block" ->          \* channel.rs:56-61 sender.send(item) (guarded by CanLeave)
             SentPark([w EXCEPT !.chan[ch].q = Append(@, x)], TRUE)
       [] ChanPol(ch) = "oldest" ->         \* channel.rs:62-81
             IF room THEN SentPark([w EXCEPT !.chan[ch].q = Append(@, x)], TRUE)
@@ -499,20 +510,25 @@ MIdle(w) ==
                  IF x.a > 0 THEN OpEnd([w1 EXCEPT !.h.got[o.s] = Append(@, x)], x)
                  ELSE Park([w1 EXCEPT !.loc[t].us = o.s], "iter.end", "iter.end", 0)
             ELSE OpEnd(w, NoneOf(o.s))
-      [] o.op = "drop_iter" ->   \* iterator.rs:119-125 (guard: subscribers lock free, if still subscribed)
+      [] o.op = "drop_iter" ->   \* iterator.rs:119-125: the receiver goes first, then unsubscribe
             IF w.chan[o.s].held
-            THEN MUnsubLocked([w EXCEPT !.chan[o.s].rx = FALSE, !.chan[o.s].held = FALSE,
-                                        !.lk["subs"] = t], o.s, "op")
+            THEN Park([w EXCEPT !.chan[o.s].rx = FALSE, !.loc[t].us = o.s], "iter.drop", "iter.drop", 0)
             ELSE OpEnd([w EXCEPT !.chan[o.s].rx = FALSE], "ok")
       [] o.op = "add_reducer" -> OpEnd([w EXCEPT !.reducers = Append(@, o.s),
                                                   !.h.redAfter[o.s] = Acts \ w.h.sawOpen], "ok")  \* (guard: reducers lock free)
       [] o.op = "add_mw" -> OpEnd([w EXCEPT !.mws = Append(@, o.s)], "ok")            \* (guard: middlewares lock free)
+      [] o.op = "signal" -> OpEnd([w EXCEPT !.sig = @ \cup {o.s}], "ok")      \* harness only
+      [] o.op = "wait" -> OpEnd(w, "ok")                                      \* (guard: the signal is up)
       [] o.op = "task" -> OpEnd(Submit(w, "task", 0), "ok")                            \* dispatcher.rs:60-73
       [] o.op = "thunk" -> OpEnd(Submit(w, "thunk", o.a), "ok")                        \* dispatcher.rs:42-58
 
 MIterEnd(w) ==               \* iterator.rs:99-107 (guard: subscribers lock free)
     LET s == L(w).us IN
     MUnsubLocked([w EXCEPT !.lk["subs"] = w.t, !.chan[s].held = FALSE], s, "iter")
+
+MIterDrop(w) ==              \* (guard: subscribers lock free)
+    LET s == L(w).us IN
+    MUnsubLocked([w EXCEPT !.lk["subs"] = w.t, !.chan[s].held = FALSE], s, "op")
 
 MUnsDone(w) ==               \* the unsubscribe closure returns: unlock
     LET w1 == [w EXCEPT !.lk["subs"] = "-"]  o == CurOp(w) IN
@@ -583,6 +599,7 @@ Micro(w) ==
       [] p = "stop.pool" -> MStopPool(w)
       [] p = "join"      -> MJoin(w)
       [] p = "iter.end"  -> MIterEnd(w)
+      [] p = "iter.drop" -> MIterDrop(w)
       [] p = "uns.done"  -> MUnsDone(w)
       [] p = "unsub.cb"  -> Goto(w, "unsub.ret")
       [] p = "unsub.ret" -> IF L(w).uret = "uns" THEN Goto(w, "uns.done")
@@ -646,14 +663,14 @@ CanLeave(t) ==
             /\ LET o == prog[t][l.ip] IN
                CASE o.op \in {"dispatch", "close", "stop", "drop_store"} -> lk["tx"] = "-"
                  [] o.op \in {"add_sub", "subscribed", "iter", "unsub"} -> lk["subs"] = "-"
-                 [] o.op = "drop_iter" -> chan[o.s].held => lk["subs"] = "-"
                  [] o.op = "next" -> chan[o.s].rx => chan[o.s].q # <<>>
+                 [] o.op = "wait" -> o.s \in sig
                  [] o.op = "add_reducer" -> lk["reds"] = "-"
                  [] o.op = "add_mw" -> lk["mws"] = "-"
                  [] OTHER -> TRUE
-      [] p = "send" -> ChanPol(l.ch) = "block" => Len(chan[l.ch].q) < ChanCap(l.ch)
+      [] p = "send" -> ChanPol(l.ch) = "block" /\ ~RxGone(chan, l.ch) => Len(chan[l.ch].q) < ChanCap(l.ch)
       [] p = "join" -> PoolIdle
-      [] p = "iter.end" -> lk["subs"] = "-"
+      [] p \in {"iter.end", "iter.drop"} -> lk["subs"] = "-"
       [] p = "ctxdrop" -> lk[CtxLock(l.us)] = "-"
       [] p = "chjoin" -> pc[ChName(l.us)] = "exited"
       [] p = "recv" -> chan["D"].q # <<>> \/ ~chan["D"].alive
@@ -672,7 +689,7 @@ Step(t) ==
         LET w == Run(World(t, ans)) IN
         /\ chan' = w.chan /\ lk' = w.lk /\ state' = w.state /\ reducers' = w.reducers
         /\ mws' = w.mws /\ subs' = w.subs /\ pool' = w.pool /\ tasks' = w.tasks
-        /\ pc' = w.pc /\ loc' = w.loc /\ m' = w.m /\ h' = w.h
+        /\ pc' = w.pc /\ loc' = w.loc /\ sig' = w.sig /\ m' = w.m /\ h' = w.h
         /\ lbl' = [t |-> t, ev |-> w.ev, d |-> w.d, notes |-> w.notes, ans |-> ans]
         /\ UNCHANGED prog
 
@@ -684,4 +701,5 @@ Spec == Init /\ [][Next]_vars /\ \A t \in Threads : WF_vars(Step(t))
 Finished(t) == IF t \in Clients THEN pc[t] = "idle" /\ loc[t].ip > Len(prog[t])
                ELSE pc[t] \in {"none", "exited", "joined"}
 AllDone == \A t \in Threads : Finished(t)
+ClientsDone == \A t \in Clients : Finished(t)
 =============================================================================
